@@ -125,12 +125,16 @@ func (p *Processor) Run(ctx context.Context) error {
 
 				state, err := p.store.LoadOffset(ctx, seg.Topic, seg.Partition)
 				if err != nil {
-					continue
+					// Stop this partition for this cycle: a later segment must not
+					// commit a checkpoint past the records of this one.
+					break
 				}
 
 				records, err := p.decode.Decode(ctx, seg.SegmentKey, seg.IndexKey, seg.Topic, seg.Partition)
 				if err != nil {
-					continue
+					// Stop this partition for this cycle: a later segment must not
+					// commit a checkpoint past the records of this one.
+					break
 				}
 				if len(records) == 0 {
 					continue
@@ -148,7 +152,9 @@ func (p *Processor) Run(ctx context.Context) error {
 				err = p.sink.Write(ctx, mapped)
 				unlock()
 				if err != nil {
-					continue
+					// Stop this partition for this cycle: a later segment must not
+					// commit a checkpoint past the records of this one.
+					break
 				}
 
 				last := mapped[len(mapped)-1]
